@@ -251,3 +251,806 @@ Definition hf_filter_literal : string := %s.
        coq_list(map(coq_str, uncond)),
        coq_str(vlit), coq_str(hlit))
     return {'Generated/Facts_C11.v': text}
+
+
+# ------------------------------------------------------------------------------------ impl side
+
+class _Settings(dict):
+    def __getattr__(self, k):
+        try:
+            return self[k]
+        except KeyError as e:
+            raise AttributeError(k) from e
+
+
+_ORIG_RENDER = None
+_FAST_RENDER = None
+
+
+def _renderers():
+    """(original bert_e.exceptions.render, same rendering through one cached jinja2 Environment)."""
+    global _ORIG_RENDER, _FAST_RENDER
+    if _ORIG_RENDER is None:
+        import bert_e.exceptions as exm
+        from bert_e.lib import template_loader as tl
+        from jinja2 import Environment, FileSystemLoader, StrictUndefined
+        env = Environment(loader=FileSystemLoader(str(tl.TEMPLATE_DIR)), undefined=StrictUndefined)
+
+        def fast(template, **kwargs):
+            return env.get_template(template).render(**kwargs)
+        _ORIG_RENDER, _FAST_RENDER = exm.render, fast
+    return _ORIG_RENDER, _FAST_RENDER
+
+
+def set_render(fast):
+    import bert_e.exceptions as exm
+    orig, cached = _renderers()
+    exm.render = cached if fast else orig
+
+
+class _Server:
+    """What replaces bert_e.lib.jira.JiraIssue: a table key -> issue | HTTP status."""
+    table = {}
+    expect = None      # (account_url, email, token) the gate must pass on
+
+    def __init__(self, account_url, issue_id, email, token):
+        from jira.exceptions import JIRAError
+        if _Server.expect is not None and (account_url, email, token) != _Server.expect:
+            raise AssertionError('JiraIssue called with %r' % ((account_url, email, token),))
+        ent = _Server.table.get(issue_id)
+        if ent is None:
+            raise JIRAError(status_code=404, text='Issue Does Not Exist')
+        if isinstance(ent, int):
+            raise JIRAError(status_code=ent, text='scripted failure')
+        self.key = ent.key
+        self.fields = ent.fields
+
+
+def _issue(key, typ, versions):
+    return SimpleNamespace(key=key, fields=SimpleNamespace(
+        issuetype=SimpleNamespace(name=typ), fixVersions=[SimpleNamespace(name=v) for v in versions],
+        parent=SimpleNamespace(key='PARENT-1')))
+
+
+_PATCHED = False
+_CMDLINE_ON = False
+_AUTHOR_BYPASS = None
+
+
+def _patch():
+    global _PATCHED
+    if not _PATCHED:
+        import bert_e.workflow.gitwaterflow.jira as J
+        J.jira_api.JiraIssue = _Server
+        _PATCHED = True
+
+
+def _cmdline(on):
+    """gwf.setup as BertE.__init__ calls it with settings.cmd_line_options."""
+    global _CMDLINE_ON
+    if on != _CMDLINE_ON:
+        import bert_e.workflow.gitwaterflow as gwf
+        gwf.setup({OPTION: True} if on else {})
+        _CMDLINE_ON = on
+
+
+def _author_bypass():
+    """pr_author_options[author] as the real settings loader builds it."""
+    global _AUTHOR_BYPASS
+    if _AUTHOR_BYPASS is None:
+        from bert_e.settings import PrAuthorsOptions
+        _AUTHOR_BYPASS = PrAuthorsOptions().deserialize({'author': [OPTION]})['author']
+    return _AUTHOR_BYPASS
+
+
+def make_job(source, dst_objects, target_versions, cfg, bypass):
+    """The stub job.  The settings go through the real Reactor.init_settings (registered defaults)."""
+    from bert_e.reactor import Reactor
+    from bert_e.workflow.gitwaterflow import branches as B
+    _patch()
+    _cmdline(bypass == 'cmdline')
+    settings = _Settings(bypass_prefixes=list(cfg['bypass_prefixes']), jira_keys=list(cfg['jira_keys']),
+                         jira_email=cfg['jira_email'], jira_account_url=cfg['jira_account_url'],
+                         jira_token='tok', prefixes={k: 'p' for k in cfg['prefix_keys']},
+                         disable_version_checks=cfg['disable_version_checks'])
+    Reactor().init_settings(SimpleNamespace(settings=settings))
+    if bypass == 'comment':
+        settings[OPTION] = True           # what set_option does for an accepted comment
+    author_bypass = _author_bypass() if bypass == 'author' else {}
+    active = [k for k, v in settings.items() if v is True and k.startswith('bypass_')] + \
+             [k for k, v in author_bypass.items() if v]
+    _Server.expect = (cfg['jira_account_url'], cfg['jira_email'], 'tok')
+    src = B.branch_factory(None, source)
+    git = SimpleNamespace(src_branch=src, cascade=SimpleNamespace(dst_branches=dst_objects,
+                                                                  target_versions=list(target_versions)))
+    return SimpleNamespace(settings=settings, author_bypass=author_bypass, active_options=active, git=git)
+
+
+def call_gate(job):
+    """Run the real jira_checks; the observable is return vs the exception class (+ target of MissingJiraId)."""
+    import bert_e.workflow.gitwaterflow.jira as J
+    from jira.exceptions import JIRAError
+    try:
+        J.jira_checks(job)
+        return 'Ok'
+    except JIRAError:
+        return 'JIRAErrorReraised'
+    except AttributeError:
+        return 'AttributeErr'
+    except Exception as e:
+        name = type(e).__name__
+        if name == 'MissingJiraId':
+            names = [b.name for b in job.git.cascade.dst_branches]
+            d = e.kwargs.get('dest_branch')
+            return 'MissingJiraId:%s' % (names.index(d) if d in names else '?')
+        return name
+
+
+CHAR = {'Ok': 'O', 'MissingJiraId': 'M', 'JiraIssueNotFound': 'N', 'IncorrectJiraProject': 'P',
+        'IssueTypeNotSupported': 'T', 'IncorrectFixVersion': 'V', 'JIRAErrorReraised': 'R', 'AttributeErr': 'A'}
+
+
+def char_of(outcome):
+    return CHAR.get(outcome.split(':')[0], '?')
+
+
+# ------------------------------------------------------------------------------------ explicit cases
+
+def dst_objects_of(case):
+    from bert_e.workflow.gitwaterflow import branches as B
+    objs = [B.branch_factory(None, n) for n in case['dst']]
+    if case.get('flags') is not None:
+        for o, f in zip(objs, case['flags']):
+            o.allow_ticketless_pr = bool(f)        # instance attribute over the class flag
+    return objs
+
+
+def table_of(db):
+    t = {}
+    for e in db:
+        if e['key'] in t:
+            continue                                # the first entry of a key wins, as in Model/Jira.v lookup
+        t[e['key']] = e['status'] if 'status' in e else _issue(e['key'], e['type'], e['versions'])
+    return t
+
+
+def impl_case(case):
+    try:
+        objs = dst_objects_of(case)
+        job = make_job(case['source'], objs, case['target_versions'], case['settings'], case['bypass'])
+    except Exception as e:
+        if type(e).__name__ == 'UnrecognizedBranchPattern':
+            return 'Unrecognized'            # raised by _handle_pull_request before the gate
+        return 'Setup:' + type(e).__name__
+    _Server.table = table_of(case['db'])
+    return call_gate(job)
+
+
+def hx(s):
+    return 'x' + s.encode().hex()
+
+
+def hxl(l):
+    return ','.join(hx(s) for s in l) if l else '-'
+
+
+def targets_word(case):
+    from bert_e.workflow.gitwaterflow import branches as B
+    if not case['dst']:
+        return '-'
+    if case.get('flags') is not None:
+        return ','.join('1' if f else '0' for f in case['flags'])
+    return ','.join(type(B.branch_factory(None, n)).__name__ for n in case['dst'])
+
+
+def request_head(kind, cfg, bypass, source, targets, expected):
+    return '%s %d %d %d %d %s %s %s %s %s %s %s %s' % (
+        kind, bypass == 'comment', bypass == 'cmdline', bypass == 'author', cfg['disable_version_checks'],
+        hxl(cfg['bypass_prefixes']), hxl(cfg['jira_keys']), hx(cfg['jira_email']), hx(cfg['jira_account_url']),
+        hxl(cfg['prefix_keys']), hx(source), targets, hxl(expected))
+
+
+def db_word(db):
+    if not db:
+        return '-'
+    out = []
+    for e in db:
+        if 'status' in e:
+            out.append('E|%s|%d' % (hx(e['key']), e['status']))
+        else:
+            out.append('%s|%s|%s|%s' % ('S' if e.get('universe') else 'F', hx(e['key']), hx(e['type']),
+                                        hxl(e['versions'])))
+    return ';'.join(out)
+
+
+def encode_case(case):
+    return request_head('case', case['settings'], case['bypass'], case['source'], targets_word(case),
+                        case['target_versions']) + ' ' + db_word(case['db'])
+
+
+def ascii_ok(case):
+    try:
+        for s in [case['source']] + case['target_versions'] + case['dst']:
+            s.encode('ascii')
+        return True
+    except UnicodeEncodeError:
+        return False
+
+
+def in_quantifier(case):
+    """Inputs the theorem C11_full speaks about: feature-branch source, no line feed in version names,
+    a server that answers (issue or 404)."""
+    from bert_e.workflow.gitwaterflow import branches as B
+    try:
+        src = B.branch_factory(None, case['source'])
+    except Exception:
+        return False
+    if type(src) is not B.FeatureBranch:
+        return False
+    if any('\n' in v for v in case['target_versions']):
+        return False
+    for e in case['db']:
+        if 'status' in e or any('\n' in v for v in e['versions']):
+            return False
+    return True
+
+
+def _explicit_task(args):
+    cases, fast = args
+    set_render(fast=fast)
+    try:
+        return [impl_case(c) for c in cases]
+    finally:
+        _cmdline(False)
+
+
+def run_explicit(ctx, pool, cases, label, fast=True):
+    """Explicit cases on implementation, model and (inside the quantifier) specification."""
+    if not cases:
+        return []
+    n = max(1, (len(cases) + 63) // 64)
+    chunks = [(cases[i:i + n], fast) for i in range(0, len(cases), n)]
+    outs = [o for part in pool.map(_explicit_task, chunks) for o in part]
+    answers = ctx.model.batch_parallel([encode_case(c) for c in cases])
+    for c, out, ans in zip(cases, outs, answers):
+        model, spec = ans.split(' ')
+        ctx.evaluations += 1
+        ctx.count('stream=' + label)
+        ctx.count('outcome=' + out.split(':')[0])
+        if out != model:
+            ctx.mismatch(c, out, model, 'jira_checks (%s)' % label)
+        if in_quantifier(c):
+            if spec == 'n/a' or out.split(':')[0] != spec:
+                ctx.violation(c, spec, out.split(':')[0], 'ticket gate differs from the specification (%s)' % label)
+            if char_of(out) not in 'O' or gate_applies(c):
+                ctx.seen_nontrivial(core.canon(c))
+        if len(ctx.samples) < 4 and out not in ('Ok',) and label in ('corpus', 'original-render'):
+            ctx.sample({'input': c, 'impl': out, 'model': model, 'spec': spec})
+    return outs
+
+
+def gate_applies(case):
+    """Harness-side classification only (evidence counters): the early returns of the statement."""
+    cfg = case['settings']
+    if case['bypass'] != 'none':
+        return False
+    if case['source'].split('/')[0] in cfg['bypass_prefixes']:
+        return False
+    return bool(cfg['jira_keys'] and cfg['jira_email'] and cfg['jira_account_url'])
+
+
+# ------------------------------------------------------------------------------------ domain
+
+BYPASSES = ['none', 'comment', 'author', 'cmdline']
+
+STD = dict(bypass_prefixes=[], jira_keys=['PROJ', 'OPS_2', '12'], jira_email='bot@example.org',
+           jira_account_url='https://jira.example.org', prefix_keys=['Bug', 'Story'], disable_version_checks=False)
+
+
+def _cfg(**kw):
+    d = dict(STD)
+    d.update(kw)
+    return d
+
+
+SETTINGS = [
+    _cfg(),
+    _cfg(disable_version_checks=True),
+    _cfg(prefix_keys=[]),
+    _cfg(bypass_prefixes=['dependabot', 'bug']),
+    _cfg(jira_keys=[]),
+    _cfg(jira_email=''),
+    _cfg(jira_account_url=''),
+    _cfg(jira_keys=['proj', 'ops_2']),
+    _cfg(prefix_keys=[], disable_version_checks=True),
+    _cfg(jira_keys=['OTHER']),
+    _cfg(prefix_keys=['Epic']),
+    _cfg(bypass_prefixes=['bugfix', 'feature'], disable_version_checks=True),
+]
+V_SETTINGS = [0, 2, 1, 8]          # the settings under which the version test is reached / skipped
+
+# source names of the feature grammar: (name, ticket key the gate looks up or None)
+SOURCES = [
+    ('bugfix/PROJ-12-fix-it', 'PROJ-12'),
+    ('bugfix/proj-12-fix-it', 'PROJ-12'),                 # lower-case key
+    ('feature/PROJ-12', 'PROJ-12'),
+    ('improvement/Proj-12_mixed', 'PROJ-12'),
+    ('bugfix/OPS_2-7-thing', 'OPS_2-7'),                  # digits and underscore in the project
+    ('feature/ops_2-7', 'OPS_2-7'),
+    ('bugfix/12-34', '12-34'),                            # all-digit project
+    ('feature/OTHER-3-foo', 'OTHER-3'),                   # project not configured (configured in one setting)
+    ('epic/PROJ-0012x', 'PROJ-0012'),                     # the number keeps its leading zeros
+    ('bugfix/no-ticket-here', None),
+    ('feature/PROJ-x', None),
+    ('bug/fix', None),
+    ('dependabot/npm_and_yarn/lodash-4.17.21', None),
+    ('dependabot/PROJ-12-bump', 'PROJ-12'),
+]
+V_SOURCES = [0, 1]
+
+KINDS = ['absent', 'Bug', 'Story', 'Epic', 'Task']
+
+
+def db_for(key, kind, versions, universe=False):
+    """The server table of a case: the ticket of the branch (unless absent) between distractors; the raw
+    lower-case spelling of the key holds a different issue (a lookup by the raw key would find it)."""
+    db = [{'key': 'ZZZ-1', 'type': 'Bug', 'versions': ['1.0.0']}]
+    if key is not None:
+        if key.lower() != key:
+            db.append({'key': key.lower(), 'type': 'Task', 'versions': ['0.0.1']})
+        if kind != 'absent':
+            e = {'key': key, 'type': kind, 'versions': list(versions)}
+            if universe:
+                e['universe'] = True
+            db.append(e)
+        db.append({'key': key + '1', 'type': 'Bug', 'versions': ['1.0.0']})
+    return db
+
+
+def universe_of(target_versions):
+    """Six fix-version names around the expected versions: the expected ones, a suffixed one, x.y.z.0,
+    x.y.z.n, the 3-component stem of a hotfix version, a v-prefixed one, an unrelated plain one, x.y."""
+    t = list(dict.fromkeys(target_versions))
+    t0 = t[0] if t else '1.2.3'
+    stem = '.'.join(t0.split('.')[:3])
+    cands = t[:3] + [t0 + '_hf7', stem + '.0', stem + '.7', stem, 'v' + t0, '9.9.9', '.'.join(stem.split('.')[:2])]
+    out = []
+    for c in cands:
+        if c not in out:
+            out.append(c)
+    return out[:6]
+
+
+def subset_of(u, m):
+    return [v for i, v in enumerate(u) if (m >> i) & 1]
+
+
+# --- the branch / tag universe of C09 (copied: harness/props/c09.py belongs to another check)
+MAJORS = (4, 5, 10)
+DEVS = ['development/%d%s' % (x, m) for x in MAJORS for m in ('.0', '.1', '')]
+STABS = ['stabilization/4.0.1', 'stabilization/4.0.2', 'stabilization/5.1.1', 'stabilization/10.0.2']
+HOTFIXES = ['hotfix/4.0.1', 'hotfix/4.0.0', 'hotfix/10.1.3']
+TAG_MENU = [
+    [],
+    ['4.0.0'],
+    ['v4.0.1', '10.0.1'],
+    ['4.0.2', '4.0.0', '10.0.2'],
+    ['4.0.0_rc1', '4.0.1-beta', '10.0.2rc1', 'w4.0.3'],
+    ['4.0.0.1', '5.1.0'],
+    ['4.0.1.0', 'v4.0.1.3', '10.1.3.2', '10.1.3'],
+    ['4.0.0', '4.0.0.2', '5.1.1', 'v10.1.3.1'],
+    ['4.7.0', '5.3.1', '10.0.0', '10.2.0.4'],
+    ['5.1.0', '10.0.1', 'v4.1.5', '5.0.2'],
+    ['10.1.2', '4.0.1.1', '5.1.0-rc1', '4.0.0'],
+    ['v10.0.0', '5.0.0', '4.1.0', '4.0.0'],
+]
+
+
+def _subsets(pool, kmax):
+    for k in range(0, kmax + 1):
+        for s in itertools.combinations(pool, k):
+            yield list(s)
+
+
+def branch_sets(quick):
+    kd, ks, kh = (3, 1, 1) if quick else (5, 2, 2)
+    for d in _subsets(DEVS, kd):
+        for s in _subsets(STABS, ks):
+            for h in _subsets(HOTFIXES, kh):
+                if d or s or h:
+                    yield d + s + h
+
+
+def real_cascade(bset, tags, dst):
+    """Drive the real BranchCascade as the QuickTests of bert_e/tests/test_bert_e.py do."""
+    from bert_e.workflow.gitwaterflow import branches as B
+    c = B.BranchCascade()
+    my_dst = B.branch_factory(None, dst)
+    for n in bset:
+        c.add_branch(B.branch_factory(None, n), my_dst)
+    for t in tags:
+        c.update_versions(t)
+    c._update_major_versions()
+    c.finalize(B.branch_factory(None, dst))
+    return c
+
+
+def _cascade_task(sets):
+    """Distinct (target_versions, destination names) -> recipe, over one chunk of branch sets."""
+    seen = {}
+    n = 0
+    for bset in sets:
+        for dst in bset:
+            for tags in TAG_MENU:
+                n += 1
+                try:
+                    c = real_cascade(bset, tags, dst)
+                except Exception:
+                    continue
+                key = (tuple(c.target_versions), tuple(type(b).__name__ for b in c.dst_branches))
+                if key not in seen:
+                    seen[key] = (bset, tags, dst)
+    return n, seen
+
+
+CASCADES = []       # filled before the workers are forked: [(target_versions, [real dst objects], recipe)]
+
+
+def collect_cascades(ctx, pool):
+    sets = list(branch_sets(ctx.quick))
+    n = max(1, len(sets) // 256)
+    chunks = [sets[i:i + n] for i in range(0, len(sets), n)]
+    seen, runs = {}, 0
+    for k, part in pool.imap(_cascade_task, chunks):      # ordered: the first recipe of a key is deterministic
+        runs += k
+        for key, rec in part.items():
+            seen.setdefault(key, rec)
+    out = []
+    for key in sorted(seen):
+        bset, tags, dst = seen[key]
+        c = real_cascade(bset, tags, dst)                  # the real objects the gate will read
+        assert tuple(c.target_versions) == key[0]
+        out.append((list(c.target_versions), list(c.dst_branches), {'branches': bset, 'tags': tags, 'dst': dst}))
+    ctx.extra['cascade_runs'] = runs
+    ctx.extra['distinct_target_lists'] = len({tuple(t) for t, _, _ in out})
+    ctx.extra['distinct_target_lists_with_classes'] = len(out)
+    return out
+
+
+# ------------------------------------------------------------------------------------ bulk workers
+
+def group_case(g, mask):
+    """The explicit case of one element of a group (for reports, replay and the decoder cross-check)."""
+    si, kind, ci, bypass, ti = g
+    source, key = SOURCES[si]
+    tv, objs, _ = CASCADES[ti]
+    u = universe_of(tv)
+    return {'source': source, 'dst': [b.name for b in objs], 'flags': None, 'target_versions': list(tv),
+            'settings': SETTINGS[ci], 'bypass': bypass, 'db': db_for(key, kind, subset_of(u, mask))}
+
+
+def group_request(g):
+    si, kind, ci, bypass, ti = g
+    source, key = SOURCES[si]
+    tv, objs, _ = CASCADES[ti]
+    targets = ','.join(type(b).__name__ for b in objs) if objs else '-'
+    return request_head('sub', SETTINGS[ci], bypass, source, targets, tv) + ' ' + \
+        db_word(db_for(key, kind, universe_of(tv), universe=True))
+
+
+def _bulk_task(args):
+    """One chunk of groups x masks on implementation, model and specification; small summary back."""
+    exe, groups, masks_of, fast = args
+    set_render(fast=fast)
+    reqs = [group_request(g) for g in groups]
+    p = subprocess.run([exe], input=('\n'.join(reqs) + '\n').encode(), stdout=subprocess.PIPE, check=True)
+    answers = p.stdout.decode().split('\n')[:-1]
+    assert len(answers) == len(groups), (len(answers), len(groups))
+    res = {'n': 0, 'nontrivial': 0, 'hist': {}, 'bad': [], 'n_bad': 0}
+    hist = res['hist']
+    try:
+        for g, ans, masks in zip(groups, answers, masks_of):
+            si, kind, ci, bypass, ti = g
+            source, key = SOURCES[si]
+            tv, objs, _ = CASCADES[ti]
+            u = universe_of(tv)
+            mstr, sstr = ans.split(' ')
+            job = make_job(source, objs, tv, SETTINGS[ci], bypass)
+            db = db_for(key, kind, [])
+            table = table_of(db)
+            _Server.table = table
+            ent = table.get(key) if (key is not None and kind != 'absent') else None
+            applies = gate_applies({'settings': SETTINGS[ci], 'bypass': bypass, 'source': source})
+            if ent is None:
+                masks = [0]                      # no ticket of the branch on the server: nothing varies
+            for m in (masks if masks is not None else range(1 << len(u))):
+                if ent is not None:
+                    ent.fields.fixVersions = [SimpleNamespace(name=v) for v in subset_of(u, m)]
+                out = char_of(call_gate(job))
+                res['n'] += 1
+                hist[out] = hist.get(out, 0) + 1
+                if applies:
+                    res['nontrivial'] += 1
+                if out != mstr[m] or out != sstr[m]:
+                    res['n_bad'] += 1
+                    if len(res['bad']) < 4:
+                        # shrink over the subset lattice: drop versions while the divergence from the spec stays
+                        mm = m
+                        if out != sstr[m] and ent is not None:
+                            for i in range(len(u)):
+                                if (mm >> i) & 1:
+                                    m2 = mm & ~(1 << i)
+                                    ent.fields.fixVersions = [SimpleNamespace(name=v) for v in subset_of(u, m2)]
+                                    o2 = char_of(call_gate(job))
+                                    if o2 != sstr[m2]:
+                                        mm = m2
+                            ent.fields.fixVersions = [SimpleNamespace(name=v) for v in subset_of(u, mm)]
+                            out2 = char_of(call_gate(job))
+                        else:
+                            out2 = out
+                        res['bad'].append((g, mm, out2, mstr[mm], sstr[mm]))
+    finally:
+        _cmdline(False)
+    return res
+
+
+UNCHAR = {v: k for k, v in CHAR.items()}
+
+
+def run_bulk(ctx, pool, groups, masks_of, label, fast=True):
+    """groups: (source idx, kind, settings idx, bypass, cascade idx); masks_of: per group None (all) or a list."""
+    order = sorted(range(len(groups)), key=lambda i: (groups[i][3] == 'cmdline', i))   # few gwf.setup switches
+    groups = [groups[i] for i in order]
+    masks_of = [masks_of[i] for i in order]
+    n = max(1, min(400, (len(groups) + 255) // 256))
+    tasks = [(ctx.model.exe, groups[i:i + n], masks_of[i:i + n], fast) for i in range(0, len(groups), n)]
+    bad_all, n_bad = [], 0
+    for res in pool.imap_unordered(_bulk_task, tasks):
+        ctx.evaluations += res['n']
+        ctx.nontrivial_extra += res['nontrivial']
+        ctx.count('stream=' + label, res['n'])
+        ctx.count('gate_consulted', res['nontrivial'])
+        for k, v in res['hist'].items():
+            ctx.count('outcome=' + UNCHAR.get(k, k), v)
+        n_bad += res['n_bad']
+        bad_all += res['bad']
+    if n_bad:
+        ctx.count('bulk_failing_cases', n_bad)
+    for g, m, out, model, spec in sorted(bad_all, key=lambda b: (bin(b[1]).count('1'), str(b)))[:40]:
+        c = group_case(g, m)
+        o, mo, sp = UNCHAR.get(out, out), UNCHAR.get(model, model), UNCHAR.get(spec, spec)
+        if out != model:
+            ctx.mismatch(c, o, mo, 'jira_checks (%s)' % label)
+        if out != spec:
+            ctx.violation(c, sp, o, 'ticket gate differs from the specification (%s)' % label)
+    return n_bad
+
+
+# ------------------------------------------------------------------------------------ scripted streams
+
+def corpus_cases():
+    d = os.path.join(core.VERIF, 'corpus', ID)
+    out = []
+    if os.path.isdir(d):
+        for f in sorted(os.listdir(d)):
+            if f.endswith('.json'):
+                out.append((f, json.load(open(os.path.join(d, f)))))
+    return out
+
+
+def flag_stream():
+    """allow_ticketless_pr switched on for some destination objects (instance attribute): the rule
+    'mandatory as soon as ONE target refuses' on every flag vector of length 0..3."""
+    names = ['development/4.0', 'development/5.1', 'development/10']
+    for n in range(0, 4):
+        for flags in itertools.product([False, True], repeat=n):
+            for si in (0, 9, 10, 12):
+                for ci in (0, 3):
+                    source, key = SOURCES[si]
+                    yield {'source': source, 'dst': names[:n], 'flags': list(flags),
+                           'target_versions': ['4.0.1', '5.1.0', '10.0.0'][:n], 'settings': SETTINGS[ci],
+                           'bypass': 'none', 'db': db_for(key, 'Bug', ['4.0.1', '5.1.0', '10.0.0'][:n])}
+
+
+def beyond_stream():
+    """Inputs around and beyond the quantifier: server failures, sources that are not feature branches,
+    line feeds, duplicates, empty lists (compared with the model; with the spec when inside the quantifier)."""
+    base = dict(dst=['development/4.0', 'development/10'], flags=None, target_versions=['4.0.1', '10.0.0'],
+                settings=SETTINGS[0], bypass='none')
+    for status in (500, 401, 403, 404, 0):
+        yield dict(base, source='bugfix/PROJ-12-x', db=[{'key': 'PROJ-12', 'status': status}])
+        yield dict(base, source='bugfix/proj-12-x', db=[{'key': 'ZZZ-1', 'status': status},
+                                                       {'key': 'PROJ-12', 'type': 'Bug', 'versions': ['4.0.1', '10.0.0']}])
+    for src in ('development/4.0', 'stabilization/4.0.1', 'hotfix/4.0.1', 'hotfix/foo', 'user/me', 'release/4.0',
+                'q/4.0', 'w/4.0/bugfix/PROJ-12-x', 'w/4.0/bugfix/proj-12-x', 'q/w/3/4.0/feature/proj-12',
+                'w/10/bugfix/no-ticket', 'master', 'bugfix/PROJ-12-x\n', 'bugfix/proj-12\n', 'bugfix/\nPROJ-12',
+                'bugfix/PROJ-12\n\n', 'Bugfix/PROJ-12', 'bugfix/-12', 'bugfix/PROJ--12', 'bugfix/PROJ-', 'bugfix/é-1'):
+        for bypass in ('none', 'comment'):
+            for ci in (0, 3, 4):
+                yield dict(base, source=src, bypass=bypass, settings=SETTINGS[ci],
+                           db=db_for('PROJ-12', 'Bug', ['4.0.1', '10.0.0']) + db_for('proj-12', 'Story', ['4.0.1']))
+    versions = [['4.0.1', '10.0.0'], ['4.0.1', '4.0.1', '10.0.0'], ['10.0.0', '4.0.1'], ['4.0.1\n', '10.0.0'],
+                ['4.0.1', '10.0.0', '10.0.0.0'], ['4.0.1', '10.0.0', ''], ['4.0.1', '10.0.0', '4.0.1.0\n'],
+                ['04.0.1', '10.0.0'], ['4.0.1 ', '10.0.0'], ['4.0.1', '10.0.0', '1.2.3.4.5'], [], ['4.0.1.3'],
+                ['4.0.1.3\n'], ['4.0.1.3', '4.0.1.3'], ['4.0.1.-1'], ['4.0.1.3', '4.0.1'], ['4.0.1.0'], ['4..1'],
+                ['.4.0.1'], ['4.0.1.'], ['4.0.1.03'], ['4.0.1.00']]
+    for tv in versions:
+        for fv in versions:
+            for src in ('bugfix/PROJ-12-x', 'bugfix/nothing'):
+                dst = ['hotfix/4.0.1'] if len(set(tv)) == 1 else ['development/4.0', 'development/10'][:max(1, len(tv))]
+                yield dict(base, source=src, dst=dst if tv else [], target_versions=tv,
+                           db=db_for('PROJ-12', 'Bug', fv))
+
+
+SCAN_ALPHABET = '10.\n_'
+
+
+def scan_strings(ctx, big):
+    n = 8 if big else 6
+    for k in range(0, n + 1):
+        for t in itertools.product(SCAN_ALPHABET, repeat=k):
+            yield ''.join(t)
+    for base in ('4.0.1', '10.22.333', '4.0.1.0', '4.0.1.12', '0.0.0', '4.0.1.-1', 'v4.0.1', '4.0.1_hf7', '4.0',
+                 '4', '4.0.1.0.0', '4.0.1.00', '04.00.01'):
+        for pre in ('', ' ', 'v', '\n', '0'):
+            for suf in ('', '\n', '\n\n', ' ', '.', '.0', '.0\n', '0', '-1', '_x', '\r', '\r\n', '\t', '\x0b', '\x0c',
+                        '\x1c', '\x1d', '\x1e', '\x85'):
+                yield pre + base + suf
+
+
+def run_scanners(ctx, big):
+    """The two scanners of Model/Jira.v against re with the LIVE literals of check_fix_versions."""
+    vlit, hlit = live_patterns()
+    vre, hre = re.compile(vlit), re.compile(hlit)
+    strings = [s for s in dict.fromkeys(scan_strings(ctx, big)) if all(ord(ch) < 128 for ch in s)]
+    answers = ctx.model.batch_parallel(['scan ' + hx(s) for s in strings])
+    bad = 0
+    for s, a in zip(strings, answers):
+        want = '%d%d' % (bool(vre.match(s)), bool(hre.match(s)))
+        ctx.count('stream=scanners')
+        if a[:2] != want:
+            bad += 1
+            ctx.mismatch({'string': s}, want, a[:2], 'vfilter / hf_filter scanners')
+        if '\n' not in s and a[2:] != want:
+            ctx.mismatch({'string': s}, want, a[2:], 'version-form recognisers of the specification')
+    ctx.evaluations += len(strings)
+    return bad
+
+
+# ------------------------------------------------------------------------------------ run
+
+def _pool():
+    import multiprocessing as mp
+    import bert_e.workflow.gitwaterflow  # noqa: F401  (import before forking)
+    import bert_e.workflow.gitwaterflow.jira  # noqa: F401
+    import jira.exceptions  # noqa: F401
+    _renderers()
+    _patch()
+    return mp.get_context('fork').Pool(min(16, os.cpu_count() or 1))
+
+
+def pick_lists(ctx, k):
+    """Indices of k target lists covering every shape (hotfix x.y.z.n, untagged hotfix x.y.z.-1, 1 / 2 / 3
+    versions), the rest by seed."""
+    shapes = {}
+    for i, (tv, objs, _) in enumerate(CASCADES):
+        hot = len(tv) == 1 and tv[0].count('.') == 3
+        shape = ('hotfix-1' if hot and '-' in tv[0] else 'hotfix' if hot else 'n=%d' % len(tv))
+        shapes.setdefault(shape, []).append(i)
+    out = []
+    for shape in sorted(shapes):
+        out.append(ctx.rng.choice(shapes[shape]))
+    rest = [i for i in range(len(CASCADES)) if i not in out]
+    ctx.rng.shuffle(rest)
+    return (out + rest)[:max(k, len(out))]
+
+
+def run(ctx, only_cases=None):
+    global CASCADES
+    ctx.extra['ambiguities_resolved_by_the_code'] = AMBIGUITIES
+    ctx.rule = (
+        'bulk, on the real jira_checks with a stub job and a scripted Jira server; expected versions and destination '
+        'objects from real BranchCascade runs over the C09 universe (%s), deduplicated by (target_versions, '
+        'destination classes).  Stratum V: every distinct target list x sources {upper-case, lower-case key} x a '
+        'ticket of a configured type x all 2^6 subsets of the six-name fixVersions universe built around the list '
+        '(expected names, suffixed, x.y.z.0, x.y.z.n, stem, v-prefixed) x 4 settings (types on/off x version checks '
+        'on/off), no bypass.  Stratum G: 14 source names of the feature grammar x tickets {absent, Bug, Story, Epic, '
+        'Task} x 12 settings x bypass {none, comment, per-author, command line} x %s x %s.  '
+        'Scripted: corpus, allow_ticketless_pr flag vectors of length 0..3 (instance attribute), server failures / '
+        'non-feature sources / line feeds / duplicates / odd version names, the two scanners against re with the '
+        'live literals on every string of length <= %d over {1,0,.,LF,_}, decoder cross-check, a sample with the '
+        'original render.  distinct_nontrivial = bulk cases (distinct by construction) and scripted cases in which '
+        'the gate is actually consulted (no bypass, prefix not bypassed, Jira configured)' % (
+            'majors {4,5,10} x minors {0,1,none}: <= 3 development, <= 1 stabilization, <= 1 hotfix branches'
+            if ctx.quick else '<= 5 development, <= 2 stabilization, <= 2 hotfix branches',
+            '8 subsets by seed' if ctx.quick else 'all 2^6 subsets',
+            '2+ target lists by seed (every shape)' if ctx.quick else '10+ target lists by seed (every shape)',
+            6 if ctx.quick else 8))
+    if ctx.model is None:
+        ctx.notes.append('extracted model unavailable: correspondence and monitor not run')
+        return
+    import bert_e.workflow.gitwaterflow as gwf
+    gwf.setup({})
+    vlit, hlit = live_patterns()
+    tripped = (vlit, hlit) != (VFILTER_MODELLED, HF_FILTER_MODELLED)
+    if tripped:
+        ctx.notes.append('TRIPWIRE: regex literals of check_fix_versions changed: %r / %r (modelled: %r / %r); '
+                         'scanner stream escalated to the thorough size' % (vlit, hlit, VFILTER_MODELLED,
+                                                                            HF_FILTER_MODELLED))
+    pool = _pool()
+    try:
+        if only_cases is not None:
+            run_explicit(ctx, pool, only_cases, 'replay', fast=False)
+            return
+        # 1. corpus, original render -------------------------------------------------------------
+        corpus = corpus_cases()
+        outs = run_explicit(ctx, pool, [d['input'] for _, d in corpus], 'corpus', fast=False)
+        for (fname, data), out in zip(corpus, outs):
+            if out != data['expected']:
+                ctx.violation(data['input'], data['expected'], out,
+                              'corpus case %s: %s' % (fname, data.get('what', '')))
+        # 2. scanners ------------------------------------------------------------------------------
+        t0 = time.time()
+        run_scanners(ctx, big=(not ctx.quick) or tripped)
+        ctx.extra['scanners_s'] = round(time.time() - t0, 1)
+        # 3. scripted streams ------------------------------------------------------------------------
+        run_explicit(ctx, pool, list(flag_stream()), 'ticketless-flags')
+        run_explicit(ctx, pool, [c for c in beyond_stream() if ascii_ok(c)], 'around-quantifier')
+        # 4. target lists from the real cascade ---------------------------------------------------------
+        t0 = time.time()
+        CASCADES = collect_cascades(ctx, pool)
+        ctx.extra['cascades_s'] = round(time.time() - t0, 1)
+    finally:
+        pool.close()
+        pool.join()
+    pool = _pool()          # fork again: the workers inherit CASCADES (real branch objects)
+    try:
+        t0 = time.time()
+        # 5. stratum V ------------------------------------------------------------------------------------
+        idx = list(range(len(CASCADES)))
+        if ctx.quick:
+            keep = set(pick_lists(ctx, 150))
+            idx = [i for i in idx if i in keep]
+        groups = [(si, 'Bug', ci, 'none', ti) for ti in idx for si in V_SOURCES for ci in V_SETTINGS]
+        run_bulk(ctx, pool, groups, [None] * len(groups), 'V:versions-x-target-lists')
+        ctx.extra['stratum_V_s'] = round(time.time() - t0, 1)
+        # 6. stratum G ------------------------------------------------------------------------------------
+        t0 = time.time()
+        lists = pick_lists(ctx, 2 if ctx.quick else 10)
+        groups = [(si, kind, ci, bypass, ti) for ti in lists for si in range(len(SOURCES)) for kind in KINDS
+                  for ci in range(len(SETTINGS)) for bypass in BYPASSES]
+        if ctx.quick:
+            masks = [sorted(ctx.rng.sample(range(64), 8)) for _ in groups]
+            masks = [[m for m in ms if m < (1 << len(universe_of(CASCADES[g[4]][0])))] or [0]
+                     for ms, g in zip(masks, groups)]
+        else:
+            masks = [None] * len(groups)
+        run_bulk(ctx, pool, groups, masks, 'G:sources-x-tickets-x-settings-x-bypass')
+        ctx.extra['stratum_G_s'] = round(time.time() - t0, 1)
+        ctx.exhaustive = not ctx.quick
+        # 7. decoder cross-check + original render on a sample ----------------------------------------------
+        sample = [groups[ctx.rng.randrange(len(groups))] for _ in range(150 if ctx.quick else 600)]
+        cases = [group_case(g, ctx.rng.randrange(1 << len(universe_of(CASCADES[g[4]][0])))) for g in sample]
+        run_explicit(ctx, pool, cases, 'original-render', fast=False)
+        packed = ctx.model.batch([group_request(g) for g in sample])
+        pairs = [(g, pk, m) for g, pk in zip(sample, packed) for m in range(len(pk.split(' ')[0]))][:20000]
+        expl = ctx.model.batch([encode_case(group_case(g, m)) for g, _, m in pairs])
+        for (g, pk, m), e in zip(pairs, expl):
+            mstr, sstr = pk.split(' ')
+            em, es = e.split(' ')
+            if char_of(em) != mstr[m] or char_of(es) != sstr[m]:
+                ctx.mismatch({'group': list(g), 'mask': m}, e, mstr[m] + sstr[m], 'decoder-crosscheck')
+        j = len(pairs)
+        ctx.count('decoder_crosscheck', j)
+        for ti in lists[:3]:
+            tv, objs, rec = CASCADES[ti]
+            ctx.sample({'target_versions': tv, 'dst_branches': [b.name for b in objs], 'cascade': rec,
+                        'fix_version_universe': universe_of(tv)})
+    finally:
+        pool.close()
+        pool.join()
+        gwf.setup({})
+
+
+def replay(ctx, data):
+    run(ctx, [data['input']])
